@@ -139,7 +139,12 @@ def ScriptParse(inp, tab, ev):
     from btc_hd_wallet.script import Script
     s = _stream_for(inp, ev)
     ok, v = call(Script.parse, s)
-    ev["res"] = res_of(ok, v, lambda sc: {"cmds": cmds_to_json(sc.cmds), "used": s.tell()})
+    def view(sc):
+        d = {"cmds": cmds_to_json(sc.cmds), "used": s.tell()}
+        ok2, raw = call(sc.raw_serialize)          # the object parse() returned, serialised again
+        d["reser"] = {"ok": True, "bytes": B(raw)} if ok2 else {"ok": False, "bytes": []}
+        return d
+    ev["res"] = res_of(ok, v, view)
 
 
 @act
@@ -547,6 +552,24 @@ def ExtParse(inp, tab, ev):
         body = buf[inp["offset"]:inp["offset"] + 78]
         arg = BytesIO(buf)
         arg.seek(inp["offset"])
+    elif inp["form"] == "rawstream":
+        # an unbuffered binary stream that delivers the record in pieces (socket, pipe): refuse it or read it right
+        import io
+
+        class Pieces(io.RawIOBase):
+            def __init__(self, data, chunk):
+                self._d, self._p, self._c = bytes(data), 0, chunk
+
+            def readable(self):
+                return True
+
+            def readinto(self, b):
+                n = min(len(b), self._c, len(self._d) - self._p)
+                b[:n] = self._d[self._p:self._p + n]
+                self._p += n
+                return n
+        body = bytes(inp["s"])
+        arg = Pieces(body, inp.get("chunk", 3))
     else:
         body = bytes(inp["s"])
         arg = body if inp["form"] == "bytes" else BytesIO(body)
@@ -835,6 +858,9 @@ def Seed(inp, tab, ev):
     from btc_hd_wallet import bip39
     m, p = untext(inp["m"]), untext(inp["p"])
     _seed_oracles(tab, m, p)
+    # other (mnemonic, passphrase) pairs were turned into seeds earlier in this process (their answers are not judged)
+    for w_ in inp.get("warm", []):
+        call(bip39.bip39_seed_from_mnemonic, untext(w_["m"]), untext(w_["p"]))
     ok, v = call(bip39.bip39_seed_from_mnemonic, m, p) if argform(inp) else call(bip39.bip39_seed_from_mnemonic, mnemonic=m, password=p)
     ev["res"] = res_of(ok, v, B)
 
@@ -981,6 +1007,22 @@ def Watch(inp, tab, ev):
         probe("bip85_data", lambda: wl.bip85_data())
         probe("generate", lambda: wl.generate(0, (0, 1)))
         probe("master-private_key", lambda: wl.master.private_key)
+        # path STRINGS with a hardened level, asked of the watch-only wallet: the absolute path the full wallet prints
+        # for this node (and relatives with another purpose / coin / account), short ones, both root marks - every
+        # one of them needs a hardened derivation from public data, so none may be answered with a node
+        def fmt(lst, root):
+            return "/".join([root] + [(str(i - 2 ** 31) + "'") if i >= 2 ** 31 else str(i) for i in lst])
+        absolute = (export + sub)[:5]
+        cands = []
+        if any(i >= 2 ** 31 for i in absolute):
+            cands.append(absolute)
+            for j, i in enumerate(absolute):
+                if i >= 2 ** 31:
+                    cands.append(absolute[:j] + [i ^ 1] + absolute[j + 1:])
+        cands += [[2 ** 31], [0, 2 ** 31 + 1], [44 + 2 ** 31, 2 ** 31, 2 ** 31, 0, 5], [84 + 2 ** 31, 2 ** 31 + 1, 2 ** 31, 0, 0]]
+        for j, c in enumerate(cands[:8]):
+            for root_mark in ("m", "M"):
+                probe("by_path-with-hardened-level-%d%s" % (j, root_mark), lambda c=c, r=root_mark: wl.by_path(fmt(c, r)))
         # nothing reachable from the watch-only wallet (attributes, nodes, their children, what pickling would
         # write out) holds the private scalar of the exported node or of a node below it
         import pickle
